@@ -23,6 +23,8 @@ import (
 //	rx D|I|P <hex> <cuts>  decode arbitrary bytes (corpus / replays)
 //	mrd <bit> <cuts>       flip one bit of the packet, ReadPacket over the cut spec (malformed input)
 //	mrdall <bit>           flip one bit, ReadPacket over every single cut
+//	hold / rdheld          remember the packet just built (in the buffers it was returned in); after the next packet
+//	                       was built with the same signer instance, decode the remembered one again
 //	tz <seconds>           set the process' local time zone (time.Local) for the rest of the history
 //	cmp                    repeats the output of the make op (compared with the model HERE)
 func gen(g *common.Gen) {
@@ -47,7 +49,23 @@ func gen(g *common.Gen) {
 			g.Op("tz %d", common.Pick(r, []int{32400, -18000, 19800, 3600}))
 			g.Stat("tz")
 		}
+		// an earlier packet of the SAME signer instance, kept in the buffers it was returned in and
+		// decoded again after the main packet was built
+		holdFirst := r.Chance(1, 3) && !strings.HasSuffix(mk, " none")
+		if holdFirst {
+			tok := strings.Fields(mk)
+			first := GenMkd(r, Shape{}, g, tok[len(tok)-1])
+			if tok[0] == "mki" {
+				first = GenMki(r, Shape{}, g, tok[len(tok)-1])
+			}
+			g.Op("%s", first)
+			g.Op("hold")
+			g.Stat("hold")
+		}
 		g.Op("%s", mk)
+		if holdFirst {
+			g.Op("rdheld")
+		}
 		size := EstSize(mk)
 		// packets of 64 KiB cost the model driver ~1.5 s per decode: in the quick tier they get a
 		// reduced set of decodes (contiguous, own buffers, one cut set), the thorough tier all
@@ -113,6 +131,8 @@ func gen(g *common.Gen) {
 	}
 }
 
+var held *Built
+
 var (
 	last      *Built
 	lastBlob  []byte
@@ -151,7 +171,7 @@ func exec(op string) string {
 	f := common.Fields(op)
 	switch f[0] {
 	case "new":
-		last, lastBlob, lastMkOut = nil, nil, ""
+		last, lastBlob, lastMkOut, held = nil, nil, "", nil
 		ResetSigners()
 		time.Local = time.UTC
 		return "ok"
@@ -169,6 +189,22 @@ func exec(op string) string {
 			OwnSegs = b.SegLens
 		}
 		return out
+	case "hold":
+		if last == nil {
+			return "skip"
+		}
+		held = last
+		return "ok"
+	case "rdheld":
+		if held == nil {
+			return "skip"
+		}
+		now := append([]byte{}, held.Orig.Join()...)
+		same := " same"
+		if string(now) != string(held.Wire) {
+			same = " changed"
+		}
+		return ReadAs(held.Kind, now, "c") + same
 	case "tz":
 		// the process' local zone (what TZ / /etc/localtime set): time.Now() values carry it
 		time.Local = time.FixedZone("X", common.Atoi(f[1]))
